@@ -853,7 +853,9 @@ def _apply_val(t, v, op):
 
 class StoreGen:
     """generates store histories: child views, mutations through any held view, copies, snapshots.
-    Keeps hook keys valid (no pop on a list / no change on a union that has held children)."""
+    Hook keys mostly stay valid; sometimes a list that has held element views is popped, or a union that has a held
+    value view is changed: a write through a view whose position no longer exists (list index beyond the length, union
+    option no longer selected) must fail and change nothing (such writes are generated as `bad` ops)."""
 
     def __init__(self, g, t, v):
         self.g = g
@@ -899,6 +901,20 @@ class StoreGen:
                 parent['v'] = parent['v'][:1 + key] + [view['v']] + parent['v'][2 + key:]
             view = parent
 
+    def stale(self, i):
+        """is some hook between view i and its root view stale in the tracked state?"""
+        view = self.views[i]
+        while view['hook'] is not None:
+            p, key = view['hook']
+            parent = self.views[p]
+            pk = kind(parent['t'])
+            if pk == 'list' and key >= len(parent['v']) - 1:
+                return True
+            if pk == 'union' and view.get('sel') != int(parent['v'][1]):
+                return True
+            view = parent
+        return False
+
     def mutable(self, view):
         t = view['t']
         if is_basic(t):
@@ -923,7 +939,7 @@ class StoreGen:
                 choices += ['app'] * 3
             if ln > 0:
                 choices += ['set'] * 3
-                if not view['kids']:
+                if not view['kids'] or r.random() < 0.35:
                     choices += ['pop'] * 3
             if not choices:
                 return None
@@ -952,7 +968,7 @@ class StoreGen:
             i = r.randrange(len(t) - 1)
             return ['set', i, g.val(t[1 + i], 6)]
         if k == 'union':
-            if view['kids']:
+            if view['kids'] and r.random() < 0.6:
                 return None
             opts = t[1:]
             sel = r.randrange(len(opts))
@@ -970,7 +986,8 @@ class StoreGen:
                 i, key = r.choice(cand_child)
                 ct, cv = self.child_tv(self.views[i], key)
                 self.views[i]['kids'] = True
-                self.views.append(dict(t=ct, v=cv, hook=(i, key), kids=False))
+                self.views.append(dict(t=ct, v=cv, hook=(i, key), kids=False,
+                                       sel=int(self.views[i]['v'][1]) if kind(self.views[i]['t']) == 'union' else None))
                 kt = kind(self.views[i]['t'])
                 ops.append(r.choice(['childs', 'childi', 'childn']) if kt in ('vec', 'list') and r.random() < 0.55 else
                            'childn' if kt == 'cont' and r.random() < 0.25 else 'child')
@@ -991,6 +1008,7 @@ class StoreGen:
                         cands += [(pi, j) for j, f in enumerate(pt[1:]) if show(f) == show(cv['t'])]
                 # not into an ancestor position that contains the view itself (still legal, but the
                 # generator's value tracking keeps it simple)
+                cands = [(pi, j) for pi, j in cands if not self.stale(pi)]
                 if cands and cv['hook'] is not None:
                     pi, j = r.choice(cands)
                     pv = self.views[pi]
@@ -1020,6 +1038,12 @@ class StoreGen:
                     continue
                 i = r.choice(idx + [x for x in idx if self.views[x]['hook'] is not None] * 2)
                 vw = self.views[i]
+                if self.stale(i):
+                    # the view's position no longer exists: the write must fail, nothing changes
+                    op = self.one_op(vw)
+                    if op is not None and op[0] != 'sets':
+                        ops.append(['bad', i, op])
+                    continue
                 if p_badsets > 0 and r.random() < p_badsets and kind(vw['t']) in ('list', 'vec') and len(vw['v']) - 1 >= 2:
                     # a slice assignment that fails in the middle (an invalid item, or running past the end): the items
                     # before the failing one stay written, and the view must stay attached to its parents
